@@ -91,6 +91,7 @@ def run(chk, repo, tier):
     spairs = [c for c in repo.all_classes() if c.module.name == 'pharmpy.model.statements'
               and 'to_dict' in c.methods and 'from_dict' in c.methods]
     check_h2(chk, O11, repo, spairs)
+    run_o12_o13(chk, repo)
 
     # ---------------------------------------------------------------- O1
     for acc in ('amounts', 'compartment_names', 'compartmental_matrix', 'zero_order_inputs'):
@@ -641,3 +642,52 @@ def run_o9_o10(chk, repo):
                       line=src.lineno,
                       witness='parent CENTRAL with two eliminated metabolites, then add_dose(METAB1, ...): from_dict(to_dict(cs)) '
                               'picks another central compartment and is != cs')
+
+
+def run_o12_o13(chk, repo):
+    """O12: subs()/replace() of the system classes rebuild the object with every constructor field; O13: from_dict adds every
+    deserialised compartment to the builder (not only those that take part in a flow)"""
+    from sa.classes import reconstruction_sites
+    O12 = chk.rule('O12', 'subs() / replace() of Compartment, the dose classes and CompartmentalSystem pass every constructor '
+                          'parameter (those defaulting to None excepted) when they build the new object', floor=8)
+    sm = repo.module('pharmpy.model.statements')
+    for c in dict.values(sm.classes):
+        for f, call, missing, tgt in reconstruction_sites(repo, c, ('subs', 'replace')):
+            chk.instance(O12, f'{c.name}.{f.name}: {unparse(call)[:70]} supplies all of {tgt}: {not missing}')
+            if missing:
+                chk.violation(O12, sm.rel, f.qualname, unparse(call)[:100],
+                              f'the rebuilt {c.name} does not get {", ".join(missing)}: the attribute silently falls back to its '
+                              f'default', line=call.lineno,
+                              witness='a duration infusion with admid 2, or a compartment with a zero-order input followed by '
+                                      'set_lag_time: the admid becomes 1 / the input disappears from the equations')
+    O13 = chk.rule('O13', 'CompartmentalSystem.from_dict adds every deserialised compartment to the builder', floor=1)
+    cs = sm.classes.get('CompartmentalSystem')
+    fd = cs.methods.get('from_dict') if cs else None
+    if fd is None:
+        raise AnalysisError('CompartmentalSystem.from_dict not found')
+    adds = [c for c in calls_in(fd.node) if isinstance(c.func, ast.Attribute) and c.func.attr == 'add_compartment']
+    made = [c for c in calls_in(fd.node) if unparse(c.func).endswith('Compartment.from_dict')]
+    if not made:
+        raise AnalysisError('O13: Compartment.from_dict(...) not found in CompartmentalSystem.from_dict')
+    # each add must receive (a local bound to) the deserialised compartment, inside the iteration over the entries
+    ok = False
+    for a in adds:
+        arg = a.args[0] if a.args else None
+        if arg is None:
+            continue
+        if isinstance(arg, ast.Name):
+            srcs = [n.value for n in ast.walk(fd.node) if isinstance(n, ast.Assign) and isinstance(n.targets[0], ast.Name)
+                    and n.targets[0].id == arg.id]
+            loops = [l_ for l_ in ast.walk(fd.node) if isinstance(l_, (ast.For, ast.comprehension))
+                     and isinstance(l_.target, ast.Name) and l_.target.id == arg.id]
+            if any(unparse(c.func).endswith('Compartment.from_dict') for s_ in srcs for c in ast.walk(s_)
+                   if isinstance(c, ast.Call)) or loops:
+                ok = True
+        elif any(unparse(c.func).endswith('Compartment.from_dict') for c in ast.walk(arg) if isinstance(c, ast.Call)):
+            ok = True
+    chk.instance(O13, f'from_dict: {len(made)} Compartment.from_dict, {len(adds)} add_compartment of the result: {ok}')
+    if not ok:
+        chk.violation(O13, sm.rel, fd.qualname, 'compartments reach the builder only through add_flow',
+                      'a compartment without any flow (an AUC integrator with only a zero-order input, a compartment left '
+                      'isolated by remove_flow) is dropped on deserialisation', line=fd.node.lineno,
+                      witness='from_dict(to_dict(cs)) != cs for a system with an isolated compartment')
